@@ -159,12 +159,28 @@ def model_outcomes(drv, ename, texts):
     return ans.get('results')
 
 
+def norm_tree(t):
+    """number constants compared by value: the model keeps a float literal as its decimal text, the real tree
+    holds the float (literal VALUES are C16's business; here they only must not differ)"""
+    import lexcfg
+    if isinstance(t, list):
+        if len(t) == 3 and t[0] == 'const' and t[1] == 'number' and isinstance(t[2], dict) and 'flt' in t[2]:
+            txt = ''.join(chr(c) for c in t[2]['flt'])
+            try:
+                v = lexcfg.model_float(txt) if ('e' not in txt and 'n' not in txt and 'i' not in txt) else float(txt)
+            except Exception:  # noqa
+                v = txt
+            return ['const', 'number', {'flt': repr(v)}]
+        return [norm_tree(x) for x in t]
+    return t
+
+
 def same_outcome(real, real_tree, m):
     """real: outcome() tuple; m: model reply"""
     if 'surr' in m:
         return True            # outside the model (lone surrogate spelled by an escape)
     if real[0] == 'ok':
-        return 'ok' in m and (real_tree is None or m['ok'] == real_tree)
+        return 'ok' in m and (real_tree is None or norm_tree(m['ok']) == norm_tree(real_tree))
     if real[0] == 'lexical':
         return m.get('lexical', -1) == real[1] and 'lexical' in m
     if real[0] == 'grammar':
